@@ -129,9 +129,11 @@ impl Adapter for CbAd {
         json!({
             "wt": wt, "N": n, "min": min, "thr": *rng.pick(&[0u64, 1, 2, 3, 4, 2, 2]), "perm": if storm { 1 + rng.below(2) } else { 1 + rng.below(3) },
             "slowOn": rng.below(2), "slowThr": 2 + rng.below(2), "slowRate": *rng.pick(&[1u64, 2, 4]),
-            "D": *rng.pick(&[2u64, 4, 7]), "wait": if storm { 1 + rng.below(2) as u64 } else { *rng.pick(&[1u64, 2, 3, 5]) }, "cls": *rng.pick(&["default", "e2ok"]),
+            "D": *rng.pick(&[2u64, 4, 7]), "wait": if storm { 1 + rng.below(2) as u64 } else if rng.pct(4) { 1000000 } else { *rng.pick(&[1u64, 2, 3, 5]) }, "cls": *rng.pick(&["default", "e2ok"]),
             "fb": if seq { 0 } else { rng.below(2) },
-            "lazy": if seq && rng.pct(40) { 1 } else { 0 },
+            // lazy: the executor may let time pass before a runnable caller is polled (seq: late first polls of one
+            // call at a time; lazyc: concurrent callers created in one state and first polled in another)
+            "lazy": if (seq && rng.pct(40)) || self.variant == "lazyc" { 1 } else { 0 },
             "ctor": rng.below(2),
             "ord": rng.below(2),
             "hm": rng.below(3),
@@ -150,7 +152,7 @@ impl Adapter for CbAd {
                     .sliding_window_type(if cfg["wt"] == "count" { SlidingWindowType::CountBased } else { SlidingWindowType::TimeBased })
                     .sliding_window_size(u("N") as usize)
                     .sliding_window_duration(Duration::from_millis(u("D")))
-                    .wait_duration_in_open(Duration::from_millis(u("wait")))
+                    .wait_duration_in_open(if u("wait") >= 1000000 { Duration::MAX } else { Duration::from_millis(u("wait")) })
                     .permitted_calls_in_half_open(u("perm") as usize)
                     .minimum_number_of_calls(u("min") as usize);
                 if u("slowOn") == 1 {
@@ -265,12 +267,25 @@ impl Adapter for CbAd {
         let mut p = DriveParams::default();
         p.n = if size == Size::Quick { 5 + rng.below(4) } else { 6 + rng.below(10) };
         p.steps = if size == Size::Quick { 70 } else { 160 };
-        p.horizon = 8 * cfg["wait"].as_u64().unwrap() + 10;
+        p.horizon = 8 * cfg["wait"].as_u64().unwrap().min(5) + 10;
         p.outs = vec![(GOut::Ok, 4), (GOut::Err(1), 6), (GOut::Err(2), 1), (GOut::Panic, 1)];
         p.w_drop = 1;
         p.w_op = 1;
         p.ops = vec!["force_open", "force_open", "force_closed", "reset"];
         p.max_adv = 3;
+        if self.variant == "lazyc" {
+            // late polls: response futures created while the breaker shows one state are first polled after it has
+            // moved on (closed -> open -> half-open takes time, so time must pass while they are runnable)
+            p.lazy = true;
+            p.n = if size == Size::Quick { 8 + rng.below(5) } else { 10 + rng.below(6) };
+            p.steps = if size == Size::Quick { 90 } else { 180 };
+            p.w_create = 6;
+            p.w_poll = 5;
+            p.w_adv = 5;
+            p.w_complete = 3;
+            p.max_adv = cfg["wait"].as_u64().unwrap().min(5) + 1;
+            p.outs = vec![(GOut::Ok, 2), (GOut::Err(1), 7), (GOut::Panic, 1)];
+        }
         if self.variant == "storm" {
             // many callers arriving while open / half-open, trial calls that hang, cancellations, re-opening
             p.n = if size == Size::Quick { 10 + rng.below(5) } else { 12 + rng.below(5) };
@@ -290,7 +305,7 @@ impl Adapter for CbAd {
         if self.variant == "storm" {
             // open-loop macro steps: bursts of callers at an open / half-open breaker, trial calls that
             // hang across periods, one trial failing (re-open) or succeeding, cancellations of old and new callers
-            let wait = cfg["wait"].as_u64().unwrap();
+            let wait = cfg["wait"].as_u64().unwrap().min(5);
             let perm = cfg["perm"].as_u64().unwrap() as usize;
             let nmax = 16usize;
             let mut next = 1usize;
@@ -344,7 +359,7 @@ impl Adapter for CbAd {
         // sequential histories over {success, failure, slow success, slow failure, wait, force_open, force_closed, reset}
         let steps = if size == Size::Quick { 40 } else { 300 };
         let slow = cfg["slowThr"].as_u64().unwrap();
-        let wait = cfg["wait"].as_u64().unwrap();
+        let wait = cfg["wait"].as_u64().unwrap().min(5);
         let mut v = vec![];
         // bias: some runs are failure-heavy, some success-heavy
         let pfail = *rng.pick(&[20u32, 50, 80]);
